@@ -1,6 +1,6 @@
 SPECIFICATION Spec
 CONSTANTS
-  ClassSet = {"a", "amp", "lt", "gt", "quot", "apos", "sp", "tab", "nl", "cr", "cjk", "astral"}
+  ClassSet = {"a", "amp", "lt", "gt", "quot", "apos", "sp", "tab", "nl", "cr", "cjk", "astral", "bom"}
   MaxChars = 3
   MaxParts = 2
   Structures = {"rich"}
